@@ -196,6 +196,39 @@ def inheritance_flows():
     return out
 
 
+def constructor_flows():
+    """a field declared without a value is assigned by the constructor on SOME paths; the object is built along a path
+    that skips the assignment and the field is used at its declared type: either rejected, or the program runs"""
+    out = []
+    tys = {"Int": ("7", "{x} + 1"), "Str": ("\"s\"", "{x} + \"t\""), "Bool": ("True", "{x} and True")}
+    shapes = {
+        "straight": ("", "        self.f := {V}\n", "0"),
+        "both-branches": ("", "        if n > 0 then\n            self.f := {V}\n        else\n            self.f := {V}\n", "0"),
+        "one-branch": ("", "        if n > 0 then\n            self.f := {V}\n", "0"),
+        "else-branch-only": ("", "        if n > 0 then\n            print(n)\n        else\n            self.f := {V}\n", "1"),
+        "for-body": ("", "        for i in 0 .. n do\n            self.f := {V}\n", "0"),
+        "for-body-inclusive": ("", "        for i in 1 ..= n do\n            self.f := {V}\n", "0"),
+        "while-body": ("", "        def k := 0\n        while k < n do\n            self.f := {V}\n            k := k + 1\n", "0"),
+        "for-body-then-break": ("", "        for i in 0 .. 3 do\n            if i >= n then\n                break\n            self.f := {V}\n", "0"),
+        "match-arm": ("", "        match n\n            1 => self.f := {V}\n            _ => print(n)\n", "0"),
+        "nested-one-branch": ("", "        if n >= 0 then\n            if n > 0 then\n                self.f := {V}\n        else\n            self.f := {V}\n", "0"),
+        "after-early-return": ("", "        if n = 0 then\n            return\n        self.f := {V}\n", "0"),
+        "assigned-before-handle": ("def risky(n: Int) -> Int raise [Exception] => if n > 0 then n else raise Exception(\"no\")\n",
+                                   "        self.f := {V}\n        def r := risky(n) handle\n            err: Exception =>\n                self.g := 1\n                0\n", "0"),
+        "in-helper-method-only": ("    def fill(self) => self.f := {V}\n", "        print(n)\n", "0"),
+        "handle-arm-only": ("def risky(n: Int) -> Int raise [Exception] => if n > 0 then n else raise Exception(\"no\")\n",
+                            "        def r := risky(1) handle\n            err: Exception =>\n                self.f := {V}\n                0\n", "0"),
+    }
+    for t, (val, use) in tys.items():
+        for name, (pre, body, arg) in shapes.items():
+            helper = pre if pre.startswith("    ") else ""
+            top = pre if not pre.startswith("    ") else ""
+            text = (top + "class K\n    def f: %s\n    def g: Int := 0\n" % t + "    def __init__(self, n: Int) =>\n" + body.replace("{V}", val) + helper.replace("{V}", val)
+                    + "def o := K(%s)\ndef r: %s := o.f\nprint(%s)\n" % (arg, t, use.format(x="r")))
+            out.append(("ctor-flow/%s/%s" % (name, t), text))
+    return out
+
+
 def run(chk):
     thorough = chk.tier == "thorough"
     ok = chk.build_harness()
@@ -211,6 +244,7 @@ def run(chk):
     cases += arity_flows()
     cases += interpolation_faults()
     cases += inheritance_flows()
+    cases += constructor_flows()
     flows = container_flows()
     cases += flows if thorough else [c for c in flows if c[0].endswith(("/def", "/param"))] + rng.sample(flows, 150)
     progs = [gen_prog.Gen(rng).program() for _ in range(120 if thorough else 25)]
